@@ -17,6 +17,36 @@ CLAIMED = {
             "DESIGN.md §3 C01"),
 }
 
+CLAIMED.update({
+    "C04": ("HsmsHeader/HsmsBlock/HsmsMessage codecs are executed on all 2^80 header byte strings and on bodies with symbolic tails "
+            "across the length-field byte boundaries and compared with an independent E37 frame reference; segmentation independence is "
+            "decided as an inductive step on the real receive path (Protocol._on_connection_data_received -> ByteQueue -> "
+            "HsmsProtocol._process_received_data): from every buffer state 'first j bytes of the pending frame' and every next segment "
+            "length m, exactly the frames completed by the segment are queued, in order, field-equal, and the buffer again holds exactly "
+            "the undelivered prefix. One step from every invariant state covers every partition of every frame sequence.",
+            "Trusted: CrossHair + chx patches, z3, oracles/refe37.py, the Park stub for Condition.wait_for (a blocked receiver = re-entry; "
+            "justified by the asserted 'nothing consumed before the park'), dispatcher replaced by a recording sink. Outside: bodies > 2-3 "
+            "symbolic bytes, segments completing > 2 frames, real thread races between append and the receiver thread.",
+            "DESIGN.md §3 C04"),
+    "C10": ("TcpConnection.send_data and HsmsProtocol._process_send_queue are executed against a socket that is only its documented "
+            "contract: send() accepts any 1..len bytes, or raises EWOULDBLOCK / another OSError, in any order (symbolic outcome script). "
+            "Success must imply that the socket accepted exactly the bytes of the send, once, in order; failure is only allowed after a "
+            "real socket error; queued blocks resolve True/False accordingly. The receiver's pacing is subsumed by the nondeterministic "
+            "accepted count.",
+            "Trusted: the socket contract stub rigs/sock.py (select always reports writable), CrossHair + chx patches, log formatting "
+            "stubbed. Outside: data > 6 bytes / scripts > 4 outcomes (the loop does not depend on size), kernel behaviour beyond the "
+            "send() contract, the real 1 MiB packet size (instance attribute lowered to 1..3).",
+            "DESIGN.md §3 C10"),
+    "C16": ("SecsIHeader/SecsIBlock codecs on all header field values / byte strings against an independent E4 reference (checksum = "
+            "byte sum); every single-byte corruption (symbolic position and value) of blocks with symbolic header and data is shown to be "
+            "rejected; Message._split_blocks for bodies around every 244 boundary (thorough: every length 0..733) and concretely at the "
+            "32767-block limit; Protocol._add_message_block for two interleaved transactions in every merge order.",
+            "Trusted: CrossHair + chx patches, oracles/refe4.py. Header bytes are covered field-wise in the checksum obligations (bytes 0..5 "
+            "all values | system bytes all values; all 80 bits at once times out). Outside: > 2 data bytes in corruption, > 2 concurrent "
+            "transactions, multi-byte corruption.",
+            "DESIGN.md §3 C16"),
+})
+
 NOT_APPLICABLE = {
 }
 
